@@ -19,6 +19,12 @@ CHECKS = {
  'C11': dict(text='Seven theorems closed under the global context (Props/C11.v) about the model of LATT decoding and SymmCards as repaired: every listed operator is one of the expected (generator x centring x inversion) operators, every expected operator is present modulo lattice translations, no two listed operators agree modulo lattice translations, and with distinct generators the count is (1+#SYMM) x centring multiplicity x (2 if centrosymmetric), for every LATT code and every SYMM list. The model is compared in order with Shelxfile.symmcards on 31 tabulated space groups in four spellings and random generator sets; closure is checked per sample in exact rationals.',
              note='Trusted: Coq kernel/VM; hand model Model/Latt.v validated by correspondence; closure under composition not proved (input property).',
              technique='Coq proof (fold with duplicate suppression: soundness, coverage, NoDup, permutation count) + vm_compute correspondence', design='6 C11'),
+ 'C13': dict(text='Eleven theorems over the reals (Props/C13.v) about the model of SDM.calc_sdm: range of the wrap; the reported distance is the least biased wrapped length over the qualifying operators and the reported operator realises it (induction over the operator list); the bonded label is exactly the library rule; minimum image: below half the smallest interplanar spacing the component-wise wrap returns the nearest lattice translate (Cauchy-Schwarz), and a wrapped vector shorter than half the shortest lattice vector is the shortest translate (triangle inequality); the length formula is the kernel re-traced from SDM.vector_length. The same model, instantiated with primitive floats, is executed inside Coq on the implementation\'s doubles (items, molecule numbers) for every generated structure; the implementation is also compared with brute force over operators x translations and a union-find.',
+             note='Trusted: Coq kernel; Reals axioms; primitive floats in the mirrored execution only; hand model Model/Sdm.v validated by correspondence; molecule numbering not proved (union-find reference per sample). Known finding: long contacts beyond half the interplanar spacing in oblique cells.',
+             technique='Coq proof over R (fold invariant, Cauchy-Schwarz/triangle inequality) + float-mirrored execution of the same model in vm_compute', design='6 C13'),
+ 'C14': dict(text='Four theorems over the reals (Props/C14.v) about the model of collect_needed_symmetry and packer: every atom grow() appends is S a + k for an operator S of the list, an original non-Q-peak atom a of the same PART and an integral translation k, taken from a bonded SDM item of a numbered fragment; needed-symmetry entries carry integral shifts; no appended atom lies within 0.2 A of an earlier atom of the same non-negative PART (fold invariants). The float instance of the same model is executed inside Coq against SDM.packer; completeness and bondedness of the added images are checked by brute force per sample.',
+             note='Trusted: Coq kernel; Reals axioms; hand model validated by float-mirrored correspondence; completeness (every directly bonded image present) checked by brute force over operators x [-2,2]^3, not proved.',
+             technique='Coq proof over R (fold invariants over the needed-symmetry and packer loops) + float-mirrored execution in vm_compute', design='6 C14'),
 }
 NOT_YET = {}
 def main():
